@@ -240,6 +240,29 @@ def rule_sh2(ctx, only=None):
          lambda O: c("circle_through")(AArr(O + (2,)), AArr(O + (2,)),
                                        AArr(O + (2,))),
          lambda O: (O + (2,), O)),
+        ("utils.find_isometry", CORE, "find_isometry",
+         lambda O: c("find_isometry")(AArr((3, 3)), AArr(O + (2, 3))),
+         lambda O: O + (3, 3)),
+        ("utils.find_isometry(force_oriented)", CORE, "find_isometry",
+         lambda O: c("find_isometry")(AArr((3, 3)), AArr(O + (2, 3)), True),
+         lambda O: O + (3, 3)),
+        ("utils.orthogonal_complement", CORE, "orthogonal_complement",
+         lambda O: c("orthogonal_complement")(AArr(O + (2, 3)),
+                                              AArr((3, 3))),
+         lambda O: O + (1, 3)),
+        ("utils.construct_diagonal", CORE, "construct_diagonal",
+         lambda O: c("construct_diagonal")(AArr(O + (3,))),
+         lambda O: O + (3, 3)),
+        ("utils.permute_along_axis", CORE, "permute_along_axis",
+         lambda O: it_core.call("permute_along_axis",
+                                [AArr(O + (3, 3)), AArr(O + (3,)), -1],
+                                {"inverse": True}),
+         lambda O: O + (3, 3)),
+        ("utils.permute_along_axis(scatter)", CORE, "permute_along_axis",
+         lambda O: it_core.call("permute_along_axis",
+                                [AArr(O + (3, 3)), AArr(O + (3,)), -2],
+                                {"inverse": False}),
+         lambda O: O + (3, 3)),
         ("kleinian_to_poincare", HYP, "kleinian_to_poincare",
          lambda O: h("kleinian_to_poincare")(AArr(O + N)), lambda O: O + N),
         ("poincare_to_kleinian", HYP, "poincare_to_kleinian",
@@ -324,10 +347,7 @@ AXIS_FUNCS = {"np.flip": 1, "np.roll": 2, "np.cumsum": 1, "np.cumprod": 1,
 AXIS_METHODS = {"squeeze", "cumsum"}
 # functions whose argument is one-dimensional by construction, or that belong
 # to a not-applicable property (reason frozen per entry)
-AX1_EXEMPT = {
-    "diagonalize_form": "C18 (not applicable); `order` is 1-d for the single "
-                        "forms the claimed properties pass",
-}
+AX1_EXEMPT = {}
 
 
 def rule_ax1(ctx, rels, scope=None):
